@@ -67,6 +67,14 @@ def overlap_case(draw):
     pos = pos @ R.T
     rp = draw(repl.derived_replacement({"pos": ppos.tolist(), "els": pels},
                                        kinds=["empty", "smaller", "smaller", "equal", "larger", "disjoint", "identical"]))
+    by_copy = False
+    if len(set(pels)) >= 2 and draw(hperm.integers(0, 4)) == 0:
+        # the replacement is made the way mofun's own tests make it: copy the search pattern (after it has been used in a
+        # search) and re-type some atoms of the copy in place
+        by_copy = True
+        rels = [draw(st.sampled_from(sorted(set(pels)))) for _ in pels]
+        rp = {"pos": ppos.tolist(), "els": rels, "kind": "retyped-copy",
+              "shared": {str(i): i for i in range(len(pels)) if rels[i] == pels[i]}}
     d_all = geom.diameter(list(ppos) + [np.array(x) for x in rp["pos"]])
     extent = geom.diameter(pos)
     side = max(extent + 3.0, 2 * d_all + 4 * atol + 1.0)
@@ -98,7 +106,7 @@ def overlap_case(draw):
             "replace_all": draw(st.booleans()), "ignore": draw(st.sampled_from([False, False, True])),
             "f": 1.0 if fk == "one" else draw(st.sampled_from([0.5, 0.34, 0.75, 0.2])),
             "bonds": bonds, "rcharges": [round(repl.R_TAG0 + 0.01 * j, 6) for j in range(len(rp["pos"]))],
-            "rgroups": [4] * len(rp["pos"]),
+            "rgroups": [4] * len(rp["pos"]), "by_copy": by_copy, "prime": draw(st.booleans()),
             "meta": {"kind": kind, "repl_kind": rp["kind"]}}
 
 
@@ -165,8 +173,35 @@ def oracle(case, stats):
     some_conflict = any(D1 & D2 for (o1, o2) in itertools.combinations(options, 2) for D1 in o1 for D2 in o2)
     avoidable = can_avoid(options)
     s = build_structure(case)
-    sp, rp = repl.build_search(case), repl.build_replace(case)
+    sp = repl.build_search(case)
+    if case.get("by_copy"):
+        mf.find(s, sp, atol, case["hints"], case["seeds"], what="priming-search")
+        rp = sp.copy()
+        tel = [str(e) for e in rp.atom_type_elements]
+        for i, e in enumerate(case["rels"]):
+            rp.atom_types[i] = tel.index(e)
+        rp.charges[:] = case["rcharges"]
+        rp.groups[:] = case["rgroups"]
+    else:
+        rp = repl.build_replace(case)
     f = case["f"]
+    if case.get("prime") and not empty and not case.get("by_copy"):
+        # an earlier call in the same process with a look-alike replacement: same coordinates and the same automatic type
+        # numbering, but the search pattern's elements wherever an atom coincides with a search atom (so that call retains
+        # what this one removes).  Its outcome is not judged; nothing of it may leak into the call that is.
+        rels2 = list(case["rels"])
+        for j, q in enumerate(case["rpos"]):
+            for i, q0 in enumerate(case["ppos"]):
+                if np.abs(np.array(q) - np.array(q0)).max() < 1e-12:
+                    rels2[j] = case["pels"][i]
+        num = lambda els: [list(dict.fromkeys(els)).index(e) for e in els]
+        if rels2 != list(case["rels"]) and num(rels2) == num(case["rels"]):
+            try:
+                mf.replace(s, sp, repl.build_replace(dict(case, rels=rels2)), atol, case["hints"], case["seeds"], replace_fraction=f,
+                           replace_all=case["replace_all"], ignore_atoms_should_not_be_deleted_twice=True)
+            except Exception:
+                pass
+            stats.count("primed-by-look-alike-replacement")
     raised = None
     new = None
     try:
@@ -267,5 +302,5 @@ def oracle(case, stats):
 
 
 PARTS = [
-    HypPart("overlaps", lambda tier: overlap_case(), oracle, {"quick": 3000, "thorough": 40000}),
+    HypPart("overlaps", lambda tier: overlap_case(), oracle, {"quick": 6000, "thorough": 60000}),
 ]
